@@ -9,7 +9,7 @@ from typing import Dict, List, Optional, Set
 from .. import flow
 from ..cfg import cfg_of
 from ..flow import ERROR
-from ..model import UNKNOWN, AnchorError, Func, UnknownIdiom, short, walk_no_nested
+from ..model import UNKNOWN, AnchorError, Func, UnknownIdiom, local_names, short, walk_no_nested
 from .c09_helpers import (ASGI_REQ, C09_ACCESSORS, WSGI_REQ, SiteEscape, assignments, effective_members, is_4xx,
                           split_key, table_of)
 from .common import enclosing_map, implied, is_self_attr, walk_self
@@ -970,14 +970,31 @@ def r6_range(run):
         starts = [b for (_a, b, _l) in nid_true_edges]
         return cfg.exit not in flow.reachable(cfg, starts) if starts else False
 
-    # tuple assignments of (first_num, last_num)
+    # tuple assignments of (first_num, last_num); two adjacent single assignments `a = <x>` / `b = <y>` to the names of the
+    # returned pair count as the tuple assignment `a, b = (<x>, <y>)`
+    pair_names = None
+    for r in walk_no_nested(f.node):
+        if isinstance(r, ast.Return) and isinstance(r.value, ast.Tuple) and len(r.value.elts) == 2 and all(isinstance(x, ast.Name) for x in r.value.elts):
+            pair_names = (r.value.elts[0].id, r.value.elts[1].id)
+    pair_assigns = []      # (statement that stands for the assignment, (value of the first offset, value of the last offset))
+    for n in walk_self(f.node):
+        if (isinstance(n, ast.Assign) and isinstance(n.targets[0], ast.Tuple) and isinstance(n.value, ast.Tuple)
+                and len(n.value.elts) == 2 and len(n.targets[0].elts) == 2):
+            pair_assigns.append((n, tuple(n.value.elts)))
+        for fld in ('body', 'orelse', 'finalbody'):
+            body = getattr(n, fld, None)
+            if not (isinstance(body, list) and pair_names and pair_names[0] != pair_names[1]):
+                continue
+            for s1, s2 in zip(body, body[1:]):
+                if all(isinstance(x, ast.Assign) and len(x.targets) == 1 and isinstance(x.targets[0], ast.Name) for x in (s1, s2)) \
+                        and {s1.targets[0].id, s2.targets[0].id} == set(pair_names) \
+                        and not any(isinstance(x, ast.Name) and x.id == s1.targets[0].id for x in ast.walk(s2.value)):
+                    a, b = (s1, s2) if s1.targets[0].id == pair_names[0] else (s2, s1)
+                    pair_assigns.append((s2, (a.value, b.value)))
     n_found = 0
     cells_seen = set()
-    for n in walk_no_nested(f.node):
-        if not (isinstance(n, ast.Assign) and isinstance(n.targets[0], ast.Tuple) and isinstance(n.value, ast.Tuple)
-                and len(n.value.elts) == 2 and len(n.targets[0].elts) == 2):
-            continue
-        roles = tuple(role(e) for e in n.value.elts)
+    for n, pair_values in pair_assigns:
+        roles = tuple(role(e) for e in pair_values)
         if None in roles:
             continue
         nid = node_of(cfg, n)
@@ -1019,11 +1036,20 @@ def r6_range(run):
                 r = role(v)
                 if isinstance(t, ast.Name) and r in ('F', 'L'):
                     names_of_roles.setdefault(t.id, r)
+        elif isinstance(n, ast.Assign) and len(n.targets) == 1 and isinstance(n.targets[0], ast.Name) and pair_names and n.targets[0].id in pair_names:
+            r = role(n.value)
+            if r in ('F', 'L'):
+                names_of_roles.setdefault(n.targets[0].id, r)
     cmp_found = 0
     for t in cfg.live_nodes():
-        if t.kind != 'test' or not isinstance(t.ast, ast.Compare) or len(t.ast.ops) != 1:
+        if t.kind != 'test':
             continue
-        l, r = t.ast.left, t.ast.comparators[0]
+        cmp, negated = t.ast, False
+        while isinstance(cmp, ast.UnaryOp) and isinstance(cmp.op, ast.Not):      # `not last >= first`
+            cmp, negated = cmp.operand, not negated
+        if not isinstance(cmp, ast.Compare) or len(cmp.ops) != 1:
+            continue
+        l, r = cmp.left, cmp.comparators[0]
         if not (isinstance(l, ast.Name) and isinstance(r, ast.Name)):
             continue
         rl, rr = names_of_roles.get(l.id), names_of_roles.get(r.id)
@@ -1031,10 +1057,12 @@ def r6_range(run):
             continue
         # is this comparison evaluated where both are the first-last pair?
         cmp_found += 1
-        op = t.ast.ops[0]
+        op = cmp.ops[0]
         # normalise to  L <op> F
         if rl == 'F':
             op = {ast.Lt: ast.Gt, ast.Gt: ast.Lt, ast.LtE: ast.GtE, ast.GtE: ast.LtE}.get(type(op), type(op))()
+        if negated:
+            op = {ast.Lt: ast.GtE, ast.GtE: ast.Lt, ast.Gt: ast.LtE, ast.LtE: ast.Gt, ast.Eq: ast.NotEq, ast.NotEq: ast.Eq}.get(type(op), type(op))()
         rejects_T = raises_after(flow.edges_out(cfg, t.id, 'T'))
         rejects_F = raises_after(flow.edges_out(cfg, t.id, 'F'))
         if rejects_T and not rejects_F:
@@ -1127,6 +1155,13 @@ def r6_range(run):
                 which = 'first'
             ok_unit = True
             run.check(which == 'first', 'range_unit is what precedes the first "="', u, r, runtime_witness="Range: a=b=0-1 has the unit 'a=b'")
+        # <value>.partition('=')[0]: the head of the partition at the first '='
+        elif isinstance(v, ast.Subscript) and isinstance(v.slice, ast.Constant) and type(v.slice.value) is int and isinstance(v.value, ast.Call) \
+                and isinstance(v.value.func, ast.Attribute) and v.value.func.attr in ('partition', 'rpartition') and len(v.value.args) == 1 \
+                and isinstance(v.value.args[0], ast.Constant) and v.value.args[0].value == '=' and not v.value.keywords:
+            ok_unit = True
+            run.check(v.value.func.attr == 'partition' and v.slice.value in (0, -3), 'range_unit is what precedes the first "="', u, r,
+                      runtime_witness="Range: a=b=0-1 has the unit 'a=b'")
         # <value>.split('=', 1)[0] / .split('=')[0]
         elif isinstance(v, ast.Subscript) and isinstance(v.slice, ast.Constant) and v.slice.value == 0 and isinstance(v.value, ast.Call) \
                 and isinstance(v.value.func, ast.Attribute) and v.value.func.attr in ('split', 'rsplit') and v.value.args \
@@ -1162,14 +1197,34 @@ _FWD_ATTRS = ('src', 'dest', 'host', 'scheme')
 _FWD_PARSER = 'falcon.forwarded._parse_forwarded_header'
 
 
+def _fwd_pair_unpacks(f: Func) -> List[tuple]:
+    """[(statement, name variable)]: the statements that take the parameter name of a matched pair out of the match:
+    `name, value = <m>.groups()` (or `.group(1, 2)`), `name, value = g` with g a local bound once to `<m>.groups()`, and
+    `name = <m>.group(1)`."""
+    def groups_call(e) -> bool:
+        return isinstance(e, ast.Call) and isinstance(e.func, ast.Attribute) and e.func.attr in ('groups', 'group')
+
+    asg = assignments(f)
+    out = []
+    for a in walk_self(f.node):
+        if not (isinstance(a, ast.Assign) and len(a.targets) == 1):
+            continue
+        t, v = a.targets[0], a.value
+        if isinstance(v, ast.Name) and len(asg.get(v.id) or []) == 1 and asg[v.id][0] is not None and groups_call(asg[v.id][0]) \
+                and asg[v.id][0].func.attr == 'groups':
+            v = asg[v.id][0]
+        if isinstance(t, ast.Tuple) and t.elts and groups_call(v):
+            if isinstance(t.elts[0], ast.Name):
+                out.append((a, t.elts[0].id))
+        elif isinstance(t, ast.Name) and groups_call(v) and v.func.attr == 'group' and len(v.args) == 1 and not v.keywords \
+                and isinstance(v.args[0], ast.Constant) and v.args[0].value == 1:
+            out.append((a, t.id))
+    return out
+
+
 def _fwd_name_vars(f: Func) -> Set[str]:
     """name variable(s): first element of a tuple unpacked from <match>.groups()"""
-    name_vars = set()
-    for a in walk_self(f.node):
-        if isinstance(a, ast.Assign) and len(a.targets) == 1 and isinstance(a.targets[0], ast.Tuple) and a.targets[0].elts \
-                and isinstance(a.value, ast.Call) and isinstance(a.value.func, ast.Attribute) and a.value.func.attr in ('groups', 'group'):
-            if isinstance(a.targets[0].elts[0], ast.Name):
-                name_vars.add(a.targets[0].elts[0].id)
+    name_vars = {nm for _a, nm in _fwd_pair_unpacks(f)}
     if not name_vars:
         raise AnchorError('_parse_forwarded_header: no `name, value = <match>.groups()` unpacking')
 
@@ -1612,8 +1667,7 @@ def r11_forwarded_element_present(run):
     run.use_cfg(cfg)
     parent = enclosing_map(f.node)
     _fwd_name_vars(f)
-    unpack = [a for a in walk_self(f.node) if isinstance(a, ast.Assign) and len(a.targets) == 1 and isinstance(a.targets[0], ast.Tuple)
-              and isinstance(a.value, ast.Call) and isinstance(a.value.func, ast.Attribute) and a.value.func.attr in ('groups', 'group')]
+    unpack = [a for a, _nm in _fwd_pair_unpacks(f)]
 
     def creates(e) -> bool:
         if isinstance(e, ast.Call):
@@ -2181,8 +2235,14 @@ def _match_group_width(p, f: Func, rd, nid: int, d) -> int:
     bound once to `<module-level pattern>.match/fullmatch/search(...)` -- the group's least width, read off the pattern."""
     from .c09_helpers import ConcreteEval, regex_group_min_width
     call, group = None, None
-    if d.how == 'unpack' and isinstance(d.src, ast.Call) and isinstance(d.src.func, ast.Attribute) and d.src.func.attr == 'groups' and not d.src.args:
-        call, group = d.src, (d.index or 0) + 1
+    src = d.src
+    if d.how == 'unpack' and isinstance(src, ast.Name):
+        # `groups = <m>.groups()` ... `name, value = groups`: the one binding of the local that reaches the unpacking
+        gd = rd.at(nid, src.id)
+        if len(gd) == 1 and gd[0].how == 'assign' and gd[0].value is not None:
+            src = gd[0].value
+    if d.how == 'unpack' and isinstance(src, ast.Call) and isinstance(src.func, ast.Attribute) and src.func.attr == 'groups' and not src.args:
+        call, group = src, (d.index or 0) + 1
     elif d.how == 'assign' and isinstance(d.value, ast.Call) and isinstance(d.value.func, ast.Attribute) and d.value.func.attr == 'group' \
             and len(d.value.args) == 1 and isinstance(d.value.args[0], ast.Constant) and isinstance(d.value.args[0].value, int):
         call, group = d.value, d.value.args[0].value
@@ -2190,11 +2250,15 @@ def _match_group_width(p, f: Func, rd, nid: int, d) -> int:
         return 0
     mdefs = rd.at(nid, call.func.value.id)
     widths = []
+    from .c09_helpers import callable_alias
     for md in mdefs:
         v = md.value
-        if not (md.how == 'assign' and isinstance(v, ast.Call) and isinstance(v.func, ast.Attribute) and v.func.attr in ('match', 'fullmatch', 'search')):
+        fexpr = v.func if isinstance(v, ast.Call) else None
+        if isinstance(fexpr, ast.Name):
+            fexpr = callable_alias(f, fexpr)      # `match_pair = _PAIR_RE.match` bound once ... `match_pair(text, pos)`
+        if not (md.how == 'assign' and isinstance(fexpr, ast.Attribute) and fexpr.attr in ('match', 'fullmatch', 'search')):
             return 0
-        q = p.resolve_expr(f.module, v.func.value, f)
+        q = p.resolve_expr(f.module, fexpr.value, f)
         if not q:
             return 0
         try:
@@ -2855,6 +2919,11 @@ class _UrlEval:
                 raise UnknownIdiom('%s: conditional operand %s' % (self.f.qual, short(e, 80)))
             return self.ev(e.body if truth else e.orelse, env, nonnull)
         if isinstance(e, ast.Name):
+            if e.id not in env and e.id not in local_names(self.f):
+                # a module-level text constant (`_SCHEME_SEP = '://'`)
+                c = self.p.fold(self.f.module, e, None, self.f)
+                if isinstance(c, str):
+                    return ["'%s'" % c]
             if e.id not in env:
                 raise UnknownIdiom('%s: operand %s is not a local bound on this path' % (self.f.qual, e.id))
             v = env[e.id][0]
